@@ -385,7 +385,9 @@ impl TerminalRenderer {
                     }
                     pos.col += repeats;
                     // erase if it is more efficient
-                    if repeats > 4 {
+                    // NOTE: erase only preserves background color, so it can not
+                    //       be used when attributes are visible on an empty cell.
+                    if repeats > 4 && face.attrs.is_empty() {
                         // NOTE: erase is not moving cursor
                         term.execute(TerminalCommand::EraseChars(repeats))?;
                     } else {
